@@ -200,6 +200,20 @@ func c18R2(c *Ctx, rule string) {
 		engine.PredRel("haveNotify", "recv.config().NotifyCh", "nil", engine.LT|engine.GT),
 		engine.Event("tried", isNotifySend(true)),
 	}})
+	// the non-blocking leaderCh is updated before the NotifyCh send that may
+	// block on a slow consumer (else LeaderCh keeps saying "leader" while the
+	// server already follows)
+	for _, pr := range []struct {
+		f *ssa.Function
+		r *engine.Result
+	}{{fn, r}, {def, rd}} {
+		name := c.P.Name(pr.f)
+		engine.EachInstr(pr.f, func(in ssa.Instruction) {
+			if isNotifySend(true)(in) {
+				c.RequireAt(pr.r, rule, name+":leaderCh-before-blocking-notify", in, "leaderCh already holds the new value when the (possibly blocking) NotifyCh send starts", func(v engine.View) bool { return v.Seen("told") })
+			}
+		})
+	}
 	for i, ret := range engine.ReturnsOf(def) {
 		c.RequireAt(rd, rule, fmt.Sprintf("runLeader$defer:return#%d", i+1), ret, "every exit from leadership writes false to leaderCh and, when configured, attempts the NotifyCh send", func(v engine.View) bool {
 			return v.Seen("told") && (v.F("haveNotify") || v.Seen("tried"))
